@@ -209,15 +209,30 @@ MultiKeys == {"KeySmall"}                              \* classes used twice in 
 RepKey(k) == k \in {"Key0", "Key1", "KeySmall", "KeyMaxU32", "KeyNpInt", "KeyFloatInt"}   \* fits the u4 key column
 ConvKey(k) == k # "KeyFloatInt"                        \* reference_value_map.py:60 isinstance(key, int)
 RepLabel(l) == l \notin {"EmbeddedNul", "Surrogate", "BytesLbl", "IntLbl"}
-\* reference_value_map.py:81: the boolean map is exempt from the key-0 rule
+\* Operations on the map of an existing ReferencedData (data_type.py:357-381 value_map getter/setter):
+\*   add                 add_data(..., value_map = dict)
+\*   assign              entity_type.value_map = dict                      (replaces the stored map)
+\*   assign_equal        the same, followed by assigning an equal but new dict (nothing may change)
+\*   equal_then_assign   first assign an equal-but-new copy of the held map, then the changed dict
+\*   edit_assign         data.value_map[k] = label for every entry (reference_value_map.py:37-44 __setitem__ edits the
+\*                       held dict in place), then entity_type.value_map = data.value_map  (the object already held)
+\*   editdict_assign     data.value_map.map[k] = label (the dict the getter returned), then entity_type.value_map = that dict
+\* The two edit operations keep the entries the map already had (the harness's base entry); the others replace them.
+\* After every operation the live map, the 'Value map' dataset and the map read back after re-open are the same map.
+ReplaceOps == {"add", "assign", "assign_equal", "equal_then_assign"}
+EditOps    == {"edit_assign", "editdict_assign"}
+MapOps     == ReplaceOps \cup EditOps
+\* reference_value_map.py:81: the boolean map is exempt from the key-0 rule - only when it is the whole map, hence
+\* never for an edit of an existing map
 IsBoolMap(ks, ls) == Len(ks) = 2 /\ {<<ks[i], ls[i]>> : i \in 1..2} = {<<"Key0", "FalseLbl">>, <<"Key1", "TrueLbl">>}
-EntryOK(ks, ls, i) == /\ RepKey(ks[i]) /\ RepLabel(ls[i])
-                      /\ (ks[i] = "Key0" => (ls[i] = "Unknown" \/ IsBoolMap(ks, ls)))    \* key 0 is "Unknown"
+BoolExempt(op, ks, ls) == op \in ReplaceOps /\ IsBoolMap(ks, ls)
+EntryOK(op, ks, ls, i) == /\ RepKey(ks[i]) /\ RepLabel(ls[i])
+                          /\ (ks[i] = "Key0" => (ls[i] = "Unknown" \/ BoolExempt(op, ks, ls)))    \* key 0 is "Unknown"
 \* (a wrapped key may land on another key of the map, in particular on key 0: the harness derives that consequence
 \*  - a stored map the reader refuses - from the concrete keys, see _wrapped_map_invalid in harness/checks/C08.py)
 DevKey(k) == IF k = "KeyOverU32" THEN "MapKeyWrapsU32" ELSE ""      \* h5_writer.py:466,481 np.array(..., dtype "<u4")
-EncKey(ks, ls, i, devs) ==
-    IF EntryOK(ks, ls, i) THEN ks[i]
+EncKey(op, ks, ls, i, devs) ==
+    IF EntryOK(op, ks, ls, i) THEN ks[i]
     ELSE IF DevKey(ks[i]) \in devs /\ DevKey(ks[i]) # "" /\ RepLabel(ls[i]) THEN "WrapU32" ELSE Reject
 
 \* =====================================================================================
@@ -267,9 +282,14 @@ MapSeqs ==
                       \/ {s[1], s[2]} = {<<"Key0", "FalseLbl">>, <<"Key1", "TrueLbl">>}
                       \/ {s[1], s[2]} = {<<"Key0", "Unknown">>, <<"Key1", "TrueLbl">>}}
           ELSE {})
+\* every pair of entries for add / assign; one entry or a pair with the anchor entry for the other operations
+MapSeqsFor(op) ==
+    IF op \in {"add", "assign"} THEN MapSeqs
+    ELSE {s \in MapSeqs : Len(s) = 1 \/ s[1] = <<"KeySmall", "Ascii">> \/ s[2] = <<"KeySmall", "Ascii">>
+                           \/ {s[1], s[2]} = {<<"Key0", "FalseLbl">>, <<"Key1", "TrueLbl">>}}
 MapCases ==
-    {Mk("Map", "ValueMap", op, "dict", [i \in 1..Len(s) |-> s[i][1]], [i \in 1..Len(s) |-> s[i][2]], "scalar") :
-        op \in {"add", "assign"}, s \in MapSeqs}
+    UNION {{Mk("Map", "ValueMap", op, "dict", [i \in 1..Len(s) |-> s[i][1]], [i \in 1..Len(s) |-> s[i][2]], "scalar") :
+               s \in MapSeqsFor(op)} : op \in MapOps}
 
 Cases == (IF "Numeric" \in Families THEN NumCases ELSE {})
          \cup (IF "Text" \in Families THEN TextCases ELSE {})
@@ -298,11 +318,11 @@ Representable(c, i) ==
       [] c.fam = "Text"    -> RepText(c.src, c.elems[i])
       [] c.fam = "Json"    -> RepJson(c.elems[i]) /\ (c.kind = "Comments" => RepJson(c.aux[i]))
       [] c.fam = "Blob"    -> TypedBlob(c.elems[i])
-      [] OTHER             -> EntryOK(c.elems, c.aux, i)
+      [] OTHER             -> EntryOK(c.op, c.elems, c.aux, i)
 EncodeD(c, i, devs) ==
     CASE c.fam = "Numeric" -> EncNum(c.kind, c.src, c.elems[i], c.lenrel, devs)
       [] c.fam = "Text"    -> EncText(c.src, c.elems[i], devs)
-      [] c.fam = "Map"     -> EncKey(c.elems, c.aux, i, devs)
+      [] c.fam = "Map"     -> EncKey(c.op, c.elems, c.aux, i, devs)
       [] OTHER             -> IF Representable(c, i) THEN c.elems[i] ELSE Reject
 Encode(c, i) == EncodeD(c, i, Deviations)
 Canon(c, i) == IF c.fam = "Numeric" THEN CanonNum(c.kind, c.elems[i]) ELSE c.elems[i]
@@ -326,7 +346,8 @@ LiveD(c, i, code) == IF code \in {"Wrap32", "CCast"} THEN "Altered" ELSE Live(c,
 NulInBytesArray(c) == c.fam = "Text" /\ c.src = "S" /\ \E i \in 1..N(c) : c.elems[i] = "EmbeddedNul"
 
 NoOut == [done |-> FALSE, verdict |-> "none", reason |-> "none", optional |-> FALSE, enc |-> <<>>,
-          stored |-> <<>>, live |-> <<>>, back |-> <<>>, devs |-> <<>>, stype |-> "none", zero |-> "none"]
+          stored |-> <<>>, live |-> <<>>, back |-> <<>>, devs |-> <<>>, stype |-> "none", zero |-> "none",
+          base |-> "none"]
 
 OutcomeD(c, dv) ==
     LET n    == N(c)
@@ -349,9 +370,11 @@ OutcomeD(c, dv) ==
         devs    |-> [i \in 1..n |-> IF (Typed(c) /\ EncodeD(c, i, {}) = Reject) \/ c.kind = "Metadata" THEN DevOf(c, i) ELSE ""],
         stype   |-> StoredType(c.kind),
         \* label of key 0 in the stored value map
-        zero    |-> IF c.fam = "Map" /\ fits THEN (IF IsBoolMap(c.elems, c.aux) THEN "FalseLbl" ELSE "Unknown")
+        zero    |-> IF c.fam = "Map" /\ fits THEN (IF BoolExempt(c.op, c.elems, c.aux) THEN "FalseLbl" ELSE "Unknown")
                     ELSE IF fits /\ c.kind = "Referenced" THEN "Unknown"
-                    ELSE IF fits /\ c.kind = "Boolean" THEN "FalseLbl" ELSE "none"]
+                    ELSE IF fits /\ c.kind = "Boolean" THEN "FalseLbl" ELSE "none",
+        \* entries the map held before the operation: kept by in-place edits, dropped by a replacement
+        base    |-> IF c.fam = "Map" /\ fits THEN (IF c.op \in EditOps THEN "kept" ELSE "dropped") ELSE "none"]
 Outcome(c) == OutcomeD(c, Deviations)
 
 \* =====================================================================================
@@ -393,8 +416,15 @@ BooleansAreBits ==
 \* key 0 is "Unknown" (the boolean map is the code's documented exemption)
 KeyZeroIsUnknown ==
     Stored /\ case.fam = "Map" =>
-        /\ out.zero = "Unknown" \/ IsBoolMap(case.elems, case.aux)
-        /\ \A i \in 1..N(case) : case.elems[i] = "Key0" => (case.aux[i] = "Unknown" \/ IsBoolMap(case.elems, case.aux))
+        /\ out.zero = "Unknown" \/ BoolExempt(case.op, case.elems, case.aux)
+        /\ \A i \in 1..N(case) : case.elems[i] = "Key0" =>
+               (case.aux[i] = "Unknown" \/ BoolExempt(case.op, case.elems, case.aux))
+\* every entry written through any of the map operations is in the stored map (live = file = re-opened), and an
+\* in-place edit does not lose what the map held before
+MapWritten ==
+    Stored /\ case.fam = "Map" =>
+        /\ \A i \in 1..N(case) : out.stored[i] = case.elems[i] /\ out.back[i] = case.elems[i]
+        /\ out.base = (IF case.op \in EditOps THEN "kept" ELSE "dropped")
 \* shorter arrays are padded with the no-data code, longer ones rejected
 LengthRule ==
     out.done /\ LengthChecked(case) =>
